@@ -39,6 +39,9 @@ Proof.
   - intro H; right; apply IH; exact H.
 Qed.
 
+Section EI.
+  Variable ei : einfo_t.
+
 (* ------------------------------------------------------------------ well-formedness, fields *)
 
 Lemma wf4_Sch D kws : wf4 D (Sch kws) = forallb (wf_kw D kws) kws.
@@ -132,7 +135,7 @@ Proof.
 Qed.
 
 Lemma number_wf D k s c :
-  fclean (FNumber k s c) = true -> wf4 D (fix_dialect (fschema (FNumber k s c))) = true.
+  fclean ei (FNumber k s c) = true -> wf4 D (fix_dialect (fschema ei (FNumber k s c))) = true.
 Proof.
   cbn [fclean fschema]. rewrite fix_dialect_Sch, wf4_Sch. intro H.
   apply andb_true_iff in H as [H Hx]. apply andb_true_iff in H as [H Hmax].
@@ -145,7 +148,7 @@ Proof.
 Qed.
 
 Lemma string_wf D c :
-  fclean (FString c) = true -> wf4 D (fix_dialect (fschema (FString c))) = true.
+  fclean ei (FString c) = true -> wf4 D (fix_dialect (fschema ei (FString c))) = true.
 Proof.
   cbn [fclean fschema]. rewrite fix_dialect_Sch, wf4_Sch. unfold str_kws, nonneg. intro H.
   apply andb_true_iff in H as [H1 H2].
@@ -169,24 +172,24 @@ Section FieldWf.
   Qed.
 
   Lemma list_wf (fs : list field) :
-    Forall (fun f => fclean f = true -> refs_ok f -> wf4 D (fix_dialect (fschema f)) = true) fs ->
-    forallb fclean fs = true ->
+    Forall (fun f => fclean ei f = true -> refs_ok f -> wf4 D (fix_dialect (fschema ei f)) = true) fs ->
+    forallb (fclean ei) fs = true ->
     (forall nm, In nm (flat_map field_refs fs) -> alist_has D nm = true) ->
-    forallb (wf4 D) (map fix_dialect (map fschema fs)) = true.
+    forallb (wf4 D) (map fix_dialect (map (fschema ei) fs)) = true.
   Proof.
     intros HF Hc Hr. rewrite !forallb_map.
-    apply (forallb_Forall_impl refs_ok fclean); auto.
+    apply (forallb_Forall_impl refs_ok (fclean ei)); auto.
     apply refs_ok_list. exact Hr.
   Qed.
 
   Lemma length_map2 (fs : list field) :
-    Nat.eqb (length (map fix_dialect (map fschema fs))) 0 = Nat.eqb (length fs) 0.
+    Nat.eqb (length (map fix_dialect (map (fschema ei) fs))) 0 = Nat.eqb (length fs) 0.
   Proof. rewrite !map_length. reflexivity. Qed.
 
   Ltac open_sch := cbn [fschema]; rewrite fix_dialect_Sch, wf4_Sch.
 
   Theorem fschema_wf : forall f,
-      fclean f = true -> refs_ok f -> wf4 D (fix_dialect (fschema f)) = true.
+      fclean ei f = true -> refs_ok f -> wf4 D (fix_dialect (fschema ei f)) = true.
   Proof.
     induction f using field_ind'; intros Hc Hr.
     - apply number_wf; exact Hc.
@@ -195,16 +198,13 @@ Section FieldWf.
     - discriminate.
     - discriminate.
     - (* FEnumLit *)
-      cbn [fclean] in Hc. apply andb_true_iff in Hc as [Hc Hu]. apply andb_true_iff in Hc as [Hl Hn].
-      open_sch. cbn [map forallb]. rewrite wfk_enum, Hn, Hu. cbn [andb].
-      rewrite andb_true_r.
-      clear -Hl. induction vs as [|x vs IH]; simpl in *; [reflexivity|].
-      apply andb_true_iff in Hl as [Hx Hl]. rewrite IH by exact Hl.
-      destruct x as [| | [] | | | | | | | | |]; try discriminate; reflexivity.
+      cbn [fclean] in Hc. unfold enum_clean in Hc. cbn [fschema]. unfold enum_schema.
+      destruct (enum_vals ei (FEnumLit vs)) as [l|]; [|discriminate Hc].
+      rewrite fix_dialect_Sch, wf4_Sch. cbn [map forallb]. rewrite wfk_enum, Hc. reflexivity.
     - (* FEnumCls *)
-      cbn [fclean] in Hc. apply andb_true_iff in Hc as [Hn Hu].
-      open_sch. cbn [map forallb]. rewrite wfk_enum, map_length, Hn, Hu.
-      rewrite junique_map_pstr_json. reflexivity.
+      cbn [fclean] in Hc. unfold enum_clean in Hc. cbn [fschema]. unfold enum_schema.
+      destruct (enum_vals ei (FEnumCls c ms)) as [l|]; [|discriminate Hc].
+      rewrite fix_dialect_Sch, wf4_Sch. cbn [map forallb]. rewrite wfk_enum, Hc. reflexivity.
     - (* FSeqAny *)
       cbn [fclean] in Hc. apply andb_true_iff in Hc as [_ Hs].
       open_sch. rewrite !wf_app, uniq_kws_wf, size_kws_wf by exact Hs. reflexivity.
@@ -242,8 +242,8 @@ Section FieldWf.
       cbn [fclean] in Hc. apply andb_true_iff in Hc as [Hn Hi].
       open_sch. cbn [map forallb]. rewrite wfk_allof, length_map2, Hn, list_wf; auto.
     - (* FAnyOf *)
-      assert (G : negb (Nat.eqb (length fs) 0) && forallb fclean fs = true ->
-                  wf4 D (fix_dialect (Sch [KAnyOf (map fschema fs)])) = true).
+      assert (G : negb (Nat.eqb (length fs) 0) && forallb (fclean ei) fs = true ->
+                  wf4 D (fix_dialect (Sch [KAnyOf (map (fschema ei) fs)])) = true).
       { intro Hc'. apply andb_true_iff in Hc' as [Hn Hi].
         rewrite fix_dialect_Sch, wf4_Sch. cbn [map forallb]. rewrite wfk_anyof, length_map2, Hn, list_wf; auto. }
       destruct fs as [|g [|h t]]; try (apply G; exact Hc).
@@ -272,7 +272,8 @@ Fixpoint cfrag (f : field) : bool :=
   | FNumber k s c =>
       negb (eps_bound k s c) &&
       (negb (exclusiveMaximum c) || match maximum c with Some _ => true | None => false end)
-  | FString _ | FBoolean | FEnumCls _ _ => true
+  | FString _ | FBoolean => true
+  | FEnumCls c _ => negb (eo_by_value (ei c))       (* by-value enum fields: decided by the differential *)
   | FSeqAny SeqList _ false => true
   | FSeqEach SeqList g _ false => cfrag g
   | FMapKV (FString c) vf _ => negb (key_constrained c) && cfrag vf
@@ -433,6 +434,15 @@ Proof.
   - intro H. rewrite (IH H). apply orb_true_r.
 Qed.
 
+Lemma enum_vals_by_name c ms :
+  eo_by_value (ei c) = false ->
+  enum_vals ei (FEnumCls c ms) = Some (map (fun m : pystr * pyval => PStr (fst m)) ms).
+Proof.
+  intro Hb. cbn [enum_vals]. rewrite Hb. unfold members_of.
+  induction ms as [|[n x] ms IH]; [reflexivity|].
+  cbn [map mapO fst snd]. rewrite IH. reflexivity.
+Qed.
+
 Lemma size_kws_valid re rec sibs sz (l : list pyval) :
   size_ok sz (lenZ l) = true ->
   forallb (valid_kw re rec sibs (PList l)) (map fix_kw (size_kws sz)) = true.
@@ -514,10 +524,10 @@ Section Complete.
   Proof. reflexivity. Qed.
 
   Lemma ser_mapkv kf vf sz v :
-    ser re_match e ss (FMapKV kf vf sz) v =
+    ser ei re_match e ss (FMapKV kf vf sz) v =
     match v with
     | PDict kv =>
-        match mapO (fun p => match ser re_match e ss kf (fst p), ser re_match e ss vf (snd p) with
+        match mapO (fun p => match ser ei re_match e ss kf (fst p), ser ei re_match e ss vf (snd p) with
                              | Some (PStr k), Some y => Some (PStr k, y)
                              | _, _ => None
                              end) kv with
@@ -534,14 +544,14 @@ Section Complete.
          | [] => None
          | g :: gs' =>
              if match docb re_match e g v with Some _ => true | None => false end then
-               match ser re_match e ss g v with Some j => Some j | None => first gs' end
+               match ser ei re_match e ss g v with Some j => Some j | None => first gs' end
              else first gs'
          end) gs = Some j ->
-      exists g w, In g gs /\ docb re_match e g v = Some w /\ ser re_match e ss g v = Some j.
+      exists g w, In g gs /\ docb re_match e g v = Some w /\ ser ei re_match e ss g v = Some j.
   Proof.
     induction gs as [|g gs IH]; intros j H; [discriminate|].
     destruct (docb re_match e g v) as [w|] eqn:Ed.
-    - destruct (ser re_match e ss g v) as [j'|] eqn:Es.
+    - destruct (ser ei re_match e ss g v) as [j'|] eqn:Es.
       + inversion H; subst. exists g, w. split; [left; reflexivity | split; assumption].
       + destruct (IH j H) as (g' & w' & Hin & H1 & H2). exists g', w'. split; [right; exact Hin | split; assumption].
     - destruct (IH j H) as (g' & w' & Hin & H1 & H2). exists g', w'. split; [right; exact Hin | split; assumption].
@@ -555,8 +565,8 @@ Section Complete.
     apply number_valid_aux; auto using excl_max_num_kws; cbn [int_if_integer]; eauto.
 
   Theorem fschema_complete : forall f, cfrag f = true -> forall v nf j n,
-      docb re_match e f v = Some nf -> ser re_match e ss f nf = Some j -> (fdepth f <= n)%nat ->
-      valid4 re_search D n (fix_dialect (fschema f)) j = true.
+      docb re_match e f v = Some nf -> ser ei re_match e ss f nf = Some j -> (fdepth f <= n)%nat ->
+      valid4 re_search D n (fix_dialect (fschema ei f)) j = true.
   Proof.
     induction f using field_ind'; intros Hc v nf j n Hd Hs Hn; try discriminate Hc;
       (destruct n as [|n]; [cbn [fdepth] in Hn; lia|]).
@@ -589,6 +599,7 @@ Section Complete.
           destruct (pystr_eqb s str_False); [inversion Hd; eauto | discriminate Hd]. }
       cbn [ser] in Hs. inversion Hs; subst. reflexivity.
     - (* FEnumCls *)
+      cbn [cfrag] in Hc. apply negb_true_iff in Hc.
       cbn [docb] in Hd.
       assert (exists c' name x, nf = PEnum c' name x /\ alist_has ms name = true) as (c' & name & x & -> & Hin).
       { destruct v; try discriminate Hd.
@@ -596,8 +607,9 @@ Section Complete.
           exists c, s, p. split; [reflexivity|]. unfold alist_has. rewrite E. reflexivity.
         - destruct (pystr_eqb cls c && alist_has ms name) eqn:E; [|discriminate Hd].
           inversion Hd; subst. apply andb_true_iff in E as [_ E]. eauto. }
-      cbn [ser] in Hs. inversion Hs; subst; clear Hs.
-      cbn [fschema]. rewrite fix_dialect_Sch, valid4_S by reflexivity.
+      cbn [ser] in Hs. rewrite Hc in Hs. inversion Hs; subst; clear Hs.
+      cbn [fschema]. unfold enum_schema. rewrite (enum_vals_by_name _ _ Hc).
+      rewrite fix_dialect_Sch, valid4_S by reflexivity.
       cbn [map fix_kw forallb valid_kw]. rewrite (enum_name_in _ _ Hin). reflexivity.
     - (* FSeqAny *)
       destruct k; [|discriminate Hc]. destruct u; [discriminate Hc|].
@@ -618,14 +630,14 @@ Section Complete.
       destruct (all_some (map (docb re_match e f) l)) as [nfl|] eqn:Ea; [|discriminate Hd].
       inversion Hd; subst; clear Hd. apply andb_true_iff in E as [Esz _].
       cbn [ser seq_items seq_make] in Hs.
-      destruct (mapO (ser re_match e ss f) nfl) as [r|] eqn:Er; [|discriminate Hs].
+      destruct (mapO (ser ei re_match e ss f) nfl) as [r|] eqn:Er; [|discriminate Hs].
       inversion Hs; subst; clear Hs.
       pose proof (Forall2_map_l _ _ _ _ (all_some_Forall2 _ _ Ea)) as F1.
       pose proof (mapO_Forall2 _ _ _ Er) as F2.
       assert (Hlen : lenZ r = lenZ l).
       { unfold lenZ. rewrite <- (Forall2_length' _ _ _ F2), <- (Forall2_length' _ _ _ F1). reflexivity. }
       cbn [fdepth] in Hn.
-      assert (Hall : forallb (valid4 re_search D n (fix_dialect (fschema f))) r = true).
+      assert (Hall : forallb (valid4 re_search D n (fix_dialect (fschema ei f))) r = true).
       { clear -IHf Hc F1 F2 Hn. revert r F2. induction F1 as [|x y l nfl Hxy _ IH]; intros r F2; inversion F2; subst.
         - reflexivity.
         - cbn [forallb]. rewrite (IHf Hc x y _ n Hxy H1) by lia. apply IH. assumption. }
@@ -655,14 +667,14 @@ Section Complete.
         destruct (docb re_match e (FString c) (fst p)); [|discriminate Hpq].
         destruct (docb re_match e f2 (snd p)) eqn:Ev; [|discriminate Hpq].
         inversion Hpq; subst. exists (snd p). exact Ev. }
-      assert (Hall : forallb (fun p : pyval * pyval => valid4 re_search D n (fix_dialect (fschema f2)) (snd p)) out = true).
+      assert (Hall : forallb (fun p : pyval * pyval => valid4 re_search D n (fix_dialect (fschema ei f2)) (snd p)) out = true).
       { pose proof (mapO_Forall2 _ _ _ Eo) as F2. clear -IHf2 Hcv Hvals F2 Hn.
         induction F2 as [|p q l out Hpq _ IH]; [reflexivity|].
         inversion Hvals as [|? ? [x Hx] Hrest]; subst.
         cbn [forallb]. rewrite IH by assumption. rewrite andb_true_r.
         cbv beta in Hpq.
-        destruct (ser re_match e ss (FString c) (fst p)) as [[]|]; try discriminate Hpq.
-        destruct (ser re_match e ss f2 (snd p)) as [y|] eqn:Ey; [|discriminate Hpq].
+        destruct (ser ei re_match e ss (FString c) (fst p)) as [[]|]; try discriminate Hpq.
+        destruct (ser ei re_match e ss f2 (snd p)) as [y|] eqn:Ey; [|discriminate Hpq].
         inversion Hpq; subst. cbn [snd]. apply (IHf2 Hcv x (snd p) y n Hx Ey). lia. }
       cbn [fschema]. rewrite Hk. rewrite fix_dialect_Sch, valid4_S.
       2:{ rewrite !map_app, !no_ref_app, size_kws_no_ref. reflexivity. }
@@ -672,18 +684,20 @@ Section Complete.
       cbn [forallb] in *. apply andb_true_iff in Hall as [Hp Hall].
       rewrite Hp, orb_true_r. apply IH. exact Hall.
     - (* FAnyOf *)
-      assert (Hsel : exists g w, In g fs /\ docb re_match e g nf = Some w /\ ser re_match e ss g nf = Some j).
-      { cbn [ser] in Hs. destruct nf; try discriminate Hs; apply first_sel in Hs; exact Hs. }
+      assert (Hsel : exists g w, In g fs /\ docb re_match e g nf = Some w /\ ser ei re_match e ss g nf = Some j).
+      { cbn [ser] in Hs. destruct nf; try discriminate Hs;
+          try (apply first_sel in Hs; exact Hs).
+        destruct (eo_mixin (ei cls)); try discriminate Hs; apply first_sel in Hs; exact Hs. }
       destruct Hsel as (g & w & Hin & Hdg & Hsg).
       assert (Hnn : nf <> PNone).
       { intro E. subst nf. cbn [ser] in Hs. discriminate Hs. }
       cbn [fdepth] in Hn.
       assert (Hdep : (fdepth g <= n)%nat) by (pose proof (max_in_le g fs Hin); lia).
       assert (G : forallb (fun g => simple g && cfrag g) fs = true ->
-                  valid4 re_search D (S n) (fix_dialect (Sch [KAnyOf (map fschema fs)])) j = true).
+                  valid4 re_search D (S n) (fix_dialect (Sch [KAnyOf (map (fschema ei) fs)])) j = true).
       { intro Hall. rewrite fix_dialect_Sch, valid4_S by reflexivity.
         cbn [map fix_kw forallb valid_kw]. rewrite andb_true_r.
-        apply existsb_exists. exists (fix_dialect (fschema g)). split.
+        apply existsb_exists. exists (fix_dialect (fschema ei g)). split.
         - apply in_map. apply in_map. exact Hin.
         - rewrite forallb_forall in Hall. specialize (Hall g Hin). apply andb_true_iff in Hall as [Hsim Hcg].
           rewrite Forall_forall in H. pose proof (simple_docb_id g nf w Hsim Hdg) as ->.
@@ -699,3 +713,4 @@ Section Complete.
       + exfalso. cbn [docb] in Hdg. destruct nf; try discriminate Hdg. apply Hnn; reflexivity.
   Qed.
 End Complete.
+End EI.
